@@ -20,7 +20,7 @@ EXPLANATION = (
     "a recycled heap buffer), and a decoded_values buffer that is a view is never passed to free - by the "
     "traces for the loaders and their helpers, by a typestate rule on decoded_ownership for the other "
     "functions of src/reader; (3) the three footer readers reject short files, a wrong trailing magic and "
-    "an oversized footer length (their gating is decided under C18). (4) R45: the functions that hand out a pointer into the bytes being parsed are found as a fixed point (carquet_buffer_reader_peek returns reader->data + pos; thrift_read_binary returns its result; a copying wrapper that hands the input pointer through on one branch joins the set), and at every call of one of them the result is only read, compared or copied - never stored through a member, a pointer or an array element: parsed metadata that pointed into the footer would be valid under mmap / buffer and dangling under stdio, which frees the footer after parsing. (state) the page and footer readers keep no file-scope or static state (a remembered stream position would make the stdio path depend on an earlier reader while mmap and buffer do not) - every mutable file-scope variable and static local under src/reader/ is thread-local, never written, or an accepted idempotent lazy table (rule shared with C07). Decides these clauses, not row "
+    "an oversized footer length (their gating is decided under C18). (4) R45: the functions that hand out a pointer into the bytes being parsed are found as a fixed point (carquet_buffer_reader_peek returns reader->data + pos; thrift_read_binary returns its result; a copying wrapper that hands the input pointer through on one branch joins the set), and at every call of one of them the result is only read, compared or copied - never stored through a member, a pointer or an array element: parsed metadata that pointed into the footer would be valid under mmap / buffer and dangling under stdio, which frees the footer after parsing. (state) the page and footer readers keep no file-scope or static state (a remembered stream position would make the stdio path depend on an earlier reader while mmap and buffer do not) - every mutable file-scope variable and static local under src/reader/ is thread-local, never written, or an accepted idempotent lazy table (rule shared with C07). (6) R46 as in C04.17 over src/reader: the decode buffers of the stdio and the mmap / buffer loaders are grown to at least the page that does not fit (a loader that under-allocates on a later, larger page makes one access mode fail where the others succeed). Decides these clauses, not row "
     "alignment of batches nor that nothing else invalidates zero-copy data before close.")
 
 PR = "src/reader/page_reader.c"
@@ -75,6 +75,9 @@ def allowed(group, key):
 
 def run(ctx):
     P = ctx.P
+    ctx.clause("C03.6 the loaders' decode buffers are grown to at least the page that does not fit (R46, shared with C04.17)")
+    from ..rules import growth
+    ctx.count("growth_branches", growth.check(ctx, [f for f in P.lib_functions() if P.rel(f.file).startswith("src/reader/")]))
     ctx.clause("C03.5 the page and footer readers keep no file-scope or static state (a remembered stream position would make the stdio path depend on an earlier reader while mmap and buffer do not) (rule shared with C07)")
     from . import C07 as _c07
     ctx.count("file_scope_variables_examined", _c07.global_state(ctx, scope="src/reader/", rule="R7.reader-state"))
